@@ -183,6 +183,26 @@ def process_fn(repo, annot_rel, opts, mode, canary, base_variants):
     rec.variant = sorted(variants)
     toks = annot.select_variant(toks, variants)
     e3log = []
+    if opts.get('msubst'):
+        # rule E3b: a function extracted from inside a macro_rules arm mentions metavariables (`$t`); substitute the
+        # instantiation named on the FN/SIG line (`msubst=t:f32,u:u64`); any other `$x` is an error
+        msub = dict(x.split(':', 1) for x in opts['msubst'].split(','))
+        out, i, used = [], 0, []
+        while i < len(toks):
+            k, t = toks[i]
+            if k == 'p' and t == '$' and i + 1 < len(toks) and toks[i + 1][0] == 'id':
+                nm = toks[i + 1][1]
+                if nm not in msub:
+                    raise UnitProblem('E3b: metavariable $%s not substituted (msubst=) in %s' % (nm, a.locator))
+                out.extend(rtok.tokenize(msub[nm]))
+                if nm not in used:
+                    used.append(nm)
+                i += 2
+                continue
+            out.append((k, t))
+            i += 1
+        toks = out
+        e3log.append('E3b metavariables ' + ', '.join('$%s -> %s' % (n, msub[n]) for n in used))
     if opts.get('wrap'):
         sub = dict(x.split(':', 1) for x in opts['subst'].split(',')) if opts.get('subst') else {}
         toks, e3log = _e3_wrap(toks, opts['wrap'], sub, a.locator)
